@@ -1,7 +1,7 @@
 (** C09 - number literals and decimal arithmetic are exact. rust_decimal is a MODELLED dependency: these theorems are
     about the model's contract (DESIGN 3.1); the correspondence compares mantissa and scale with the crate on every run.
     A decimal d denotes the rational signed(d) / 10^scale(d); statements are over integers at a common scale. *)
-From EE Require Import Chars Decimal DecimalLemmas.
+From EE Require Import Chars Decimal DecimalLemmas DecimalString.
 Open Scope Z_scope.
 
 (* ordering and equality compare the denoted rationals (cross-multiplied to the larger scale): trailing zeros are ignored *)
@@ -44,8 +44,25 @@ Proof.
 Qed.
 Print Assumptions C09_fit_complete.
 
-(* literals: digits and scale are preserved (checked by computation on boundary literals; the general statement over the
-   transcription of rust_decimal's parser is future work and is covered by the correspondence on every run) *)
+(* literals: a digit string with at most one point, starting with a digit, whose digits denote a number below 2^96 and which has
+   at most 28 fractional digits, evaluates to exactly that number - every digit and the scale as written (this includes every
+   literal of up to 28 significant digits, leading and trailing zeros included). [ref_read] reads the digits as one integer and
+   counts the fractional ones. Proved about the transcription of rust_decimal 1.31.0's parse_str_radix_10 (both its 64-bit
+   and its 128-bit phase). *)
+Theorem C09_literal : forall c s,
+  is_digit09 c = true -> shape false (c :: s) = true ->
+  (fst (ref_read false 0 0 (c :: s)) < two96)%N -> (snd (ref_read false 0 0 (c :: s)) <= 28)%N ->
+  dec_of_string (c :: s) = Some (mk false (fst (ref_read false 0 0 (c :: s))) (snd (ref_read false 0 0 (c :: s)))).
+Proof. exact dec_of_string_exact. Qed.
+Print Assumptions C09_literal.
+
+(* a character that is neither a digit nor the point invalidates the literal (it is rejected, not truncated before it) *)
+Theorem C09_bad_char : forall bytes big point has data scale b,
+  is_digit09 b = false -> (b =? 46)%N = false -> phase64 big point has data scale b bytes = None.
+Proof. exact phase64_bad_char. Qed.
+Print Assumptions C09_bad_char.
+
+(* boundary literals by computation *)
 Open Scope N_scope.
 Example C09_literals :
   dec_of_string [48; 46; 49] = Some (mkdec false 1 1) /\                                   (* 0.1  *)
